@@ -40,10 +40,13 @@ Survey == "MC_SURVEY" \in DOMAIN IOEnv /\ IOEnv.MC_SURVEY = "1"      \* list eve
 Emit == "MC_EMIT" \in DOMAIN IOEnv /\ IOEnv.MC_EMIT = "1"
 
 NP == Len(UProgs)
-Part == IF "MC_PART" \in DOMAIN IOEnv THEN IOEnv.MC_PART ELSE "0/1"      \* "i/n": this JVM takes the programs with index = i mod n
+Part == IF "MC_PART" \in DOMAIN IOEnv THEN IOEnv.MC_PART ELSE "0/1"      \* "i/n": slice i of n of the sessions
 PartI == CHOOSE i \in 0..63 : \E n \in 1..64 : Part = ToString(i) \o "/" \o ToString(n)
 PartN == CHOOSE n \in 1..64 : Part = ToString(PartI) \o "/" \o ToString(n)
-Mine == {i \in 1..NP : i % PartN = PartI}
+\* a slice takes every program with a share of its inputs
+RECURSIVE HashSeq(_, _)
+HashSeq(d, j) == IF j > Len(d) THEN Len(d) ELSE d[j] * (j + 1) + 3 * HashSeq(d, j + 1)
+InSlice(i, d) == (HashSeq(d, 1) + i) % PartN = PartI
 \* longer inputs for the single constructs and the context-dependent members, shorter ones for the nests
 InputsFor(i) == IF i <= Len(S1) + Len(S4) /\ FocusKinds = {} THEN UInputs ELSE Strings(3)
 
@@ -54,7 +57,7 @@ Call(op, d, arg) == LET cs == CaseRec(op, d, arg)
                         r == Model(UProgs[pi], cs)
                     IN [cs EXCEPT !.events = r.ev, !.res = ModelRes(cs, r) @@ [path |-> <<>>, oom |-> IsOOM(r)]]
 
-Init == /\ pi \in Mine /\ data \in InputsFor(pi) /\ phase = "start" /\ cur = NoCall /\ log = <<>>
+Init == /\ pi \in 1..NP /\ data \in {d \in InputsFor(pi) : InSlice(pi, d)} /\ phase = "start" /\ cur = NoCall /\ log = <<>>
         /\ pc = 0 /\ stack = <<>> /\ fails = <<>>
 
 Start == /\ phase = "start"
